@@ -37,7 +37,10 @@ class InterruptableThread(threading.Thread):
         """
         try:
             self.result = self.func(*self.args, **self.kwargs)
-        except (Exception, SystemExit):
+        except BaseException:
+            # Whatever ended the function is handed to the thread that waits
+            # for it (also a KeyboardInterrupt or another BaseException that
+            # the function does not handle itself)
             self.exc_info = sys.exc_info()
 
     @staticmethod
